@@ -449,7 +449,13 @@ def check_property_on_impl(ctx, case, res, stats):
     need = 'blocks_full' if res['info']['vec'] else 'entries_full'
     if st.get(need) != 'Ok':
         return
-    ref = Ref(case, res)
+    try:
+        ref = Ref(case, res)
+    except AssertionError:
+        ctx.report('impl:length:full-pattern:%s' % case['name'],
+                   'multi_entries/multi_blocks over the full pattern returned an array of the wrong size',
+                   {'case': strip_case(case), 'blocks_shape': res['info'].get('blocks_shape')})
+        return
     tol = bound_for(res['info'], ref.scale)
     stats['bound_max'] = max(stats['bound_max'], tol)
     arr = res['arr']
